@@ -1,7 +1,12 @@
 #!/bin/bash
-# Builds the harness offline from files on disk only.
+# Builds the harness (and the artefacts of /repo that checks drive) offline from files on disk only.
 set -e
-cd "$(dirname "$0")/amc"
+ROOT="$(cd "$(dirname "$0")" && pwd)"
 export CARGO_NET_OFFLINE=true
-mkdir -p ../target ../evidence
-cargo build --offline --bin amc --bin amcw
+mkdir -p "$ROOT/target" "$ROOT/evidence"
+# the harness binaries
+"$ROOT/check" --build C01
+# the CLI binary driven by C33, the C library + header + interpreter driven by C36
+# (all built from /repo's tree into /verif/target/repo)
+"$ROOT/check" --build C33
+"$ROOT/check" --build C36
